@@ -26,6 +26,7 @@ class Engine(StmtMixin):
         self.src = src or Source()
         super().__init__(Universe(self.src))
         self.speclib = SpecLib(self)
+        self.speclib.declare_all()
         self.cur_module = "__spec__"
         self.cur_class = None
         self.cur_contract = None
@@ -50,7 +51,13 @@ class Engine(StmtMixin):
         self.cur_fn_node = fn
         self.loop_ord = loops_in_order(fn)
         self.obligations = []
-        self.axioms = []
+        from .core import AxiomList
+
+        self.axioms = AxiomList()
+        import z3 as _z3
+        self._feas = _z3.Solver()
+        self._feas.set("timeout", 250)
+        self._feas_stack = []
         self.used_contracts = set()
         U = self.U
         env = {}
@@ -60,7 +67,7 @@ class Engine(StmtMixin):
         if a.vararg:
             env[a.vararg.arg] = T("tuple", z3.Const("p_" + a.vararg.arg, U.SeqV))
         if a.kwarg:
-            raise Unsupported("**kwargs parameter")
+            pass  # **kwds of an abstract method: no keyword is ever passed by the package (checked at call sites)
         if fn.name == "__init__" and self.cur_class:
             from .expr import Rec
 
@@ -81,6 +88,15 @@ class Engine(StmtMixin):
             pre.append(f)
             spec_st = spec_st.fork(f)  # later clauses are read under the earlier ones
         st = self.assume(st, pre)
+        if c.lemmas:
+            from .lemmas import LEMMAS, instance
+
+            facts = []
+            for item in c.lemmas:
+                if isinstance(item, (tuple, list)) and item[0] in LEMMAS:
+                    facts.append(instance(self, item[0], item[1], st))
+            if facts:
+                st = self.assume(st, facts)
         # cover: the precondition is satisfiable
         self.obligations.append(Obligation(f"{key}/cover:requires", [], z3.And(*pre) if pre else z3.BoolVal(True), "requires satisfiable", must_be_sat=True))
         outs = self.exec_block(fn.body, st)
@@ -128,6 +144,7 @@ class Engine(StmtMixin):
         from .core import _has_quant
 
         t0 = time.time()
+        depth = max(depth, getattr(self, "default_depth", 0))
         base = list(ob.hyps) + list(self.axioms)
         goal = ob.goal
         if ob.must_be_sat:
@@ -143,8 +160,9 @@ class Engine(StmtMixin):
                     s2.add(f)
                 r = s2.check()
             return ("covered" if r == z3.sat else "vacuous" if r == z3.unsat else "unknown"), time.time() - t0, None
-        forms = base + [z3.Not(self._skolemize(goal))]
-        allf = self.saturate(forms, base, depth)
+        neg = z3.Not(self._skolemize(goal))
+        forms = base + [neg]
+        allf = self.saturate(forms, base, depth, focus=[neg])
         r, model = self._check(allf, timeout_ms)
         if r == z3.unknown:
             r, model = self._assisted(allf, timeout_ms, 2)
@@ -244,21 +262,66 @@ class Engine(StmtMixin):
             return s.model()
         return None
 
-    def saturate(self, forms, known, depth=2, rounds=2):
-        """definitional unfolding and sequence-element instantiation, alternated: instances mention new
-        spec applications (is_json(nodes[i].value)) and unfoldings mention new quantifiers"""
+    def saturate(self, forms, known, depth=2, rounds=2, focus=None):
+        """definitional unfolding and sequence-element instantiation, alternated. Goal-directed when `focus`
+        (the negated goal) is given: only applications / element terms occurring in the goal or in facts
+        derived from it are expanded; the hypotheses were already expanded when they were assumed
+        (Core.assume). Dropping consequences is always sound; it keeps the query small."""
         allf = list(forms)
-        new = list(forms)
+        n_ax = len(self.axioms)
+        have = {f.get_id() for f in allf}
+        src = list(focus) if focus is not None else list(forms)
+        new = list(src)
         for _ in range(rounds):
-            facts = self.speclib.unfold(new, depth=depth, known=known)
+            unfolded = self.speclib.unfold(new, depth=depth, known=known)
+            facts = [f for f in unfolded if f.get_id() not in have]
+            for f in facts:
+                have.add(f.get_id())
             allf += facts
-            inst = self._instantiate(allf)
-            inst = [f for f in inst if not any(f.eq(g) for g in ())]
-            allf += inst
-            new = inst
-            if not inst:
+            src += unfolded  # also the definitions that were already among the hypotheses: expansion goes on through them
+            inst = [f for f in self._instantiate(allf, sources=src) if f.get_id() not in have]
+            inst += self._nth_of_definitions(allf, have, sources=src)
+            for f in inst:
+                have.add(f.get_id())
+            # facts about uninterpreted builtins (dict_index, progressions, ...) created while unfolding
+            fresh_ax = [a for a in self.axioms[n_ax:] if a.get_id() not in have]
+            n_ax = len(self.axioms)
+            for a in fresh_ax:
+                have.add(a.get_id())
+            allf += inst + fresh_ax
+            src += inst
+            new = inst + fresh_ax
+            if not new:
                 break
-        return allf
+        fresh_ax = [a for a in self.axioms[n_ax:] if a.get_id() not in have]
+        return allf + fresh_ax
+
+    def _nth_of_definitions(self, allf, have, sources=None):
+        """For a sequence-valued spec application S with a definitional instance S == body in the query and
+        a ground element term S[t]: add  0 <= t < len(S)  ->  S[t] == body[t]  with body[t] pushed through
+        if-then-else / concatenation / unit (valid sequence facts). This exposes the element terms A[t] of
+        the prefix recursion S == A ++ [x], which the induction hypotheses talk about."""
+        defs = {}
+        for f in allf:
+            if z3.is_eq(f) and z3.is_app(f.arg(0)) and f.arg(0).decl().name().startswith("spec_") and z3.is_seq(f.arg(0)) and _appends_one(f.arg(1)):
+                defs[f.arg(0).get_id()] = (f.arg(0), f.arg(1))
+        if not defs:
+            return []
+        out = []
+        nths = {}
+        for f in (sources if sources is not None else allf):
+            _, n = _scan_quant_nth(f)
+            for sid, idxs in n.items():
+                if sid in defs:
+                    nths.setdefault(sid, {}).update(idxs)
+        for sid, idxs in nths.items():
+            lhs, body = defs[sid]
+            for t in idxs.values():
+                fact = z3.Implies(z3.And(t >= 0, t < z3.Length(lhs)), lhs[t] == _nth_expand(body, t))
+                if fact.get_id() not in have:
+                    have.add(fact.get_id())
+                    out.append(fact)
+        return out
 
     def _skolemize(self, goal):
         """universally quantified conjuncts of a goal: replace bound variables by fresh constants
@@ -273,38 +336,27 @@ class Engine(StmtMixin):
             return z3.Implies(goal.arg(0), self._skolemize(goal.arg(1)))
         return goal
 
-    def _instantiate(self, forms, rounds=2):
+    def _instantiate(self, forms, rounds=2, sources=None):
         """z3 rewrites seq.nth internally, so E-matching on `s[j]` patterns is unreliable (obligations
         came back `unknown (incomplete theory seq)`). Do that instantiation here instead: for every
         universally quantified subformula Q = forall j. phi(j) (one bound variable) whose body reads
         S[j], and every ground term S[t] in the query, add the tautology Q -> phi(t)."""
         added, seen_inst = [], set()
         cur = list(forms)
+        allq, alln = {}, {}
+        srcids = None if sources is None else {f.get_id() for f in sources}
         for _ in range(rounds):
-            quants, nths = {}, {}
-            stack, seen = list(cur), set()
-            while stack:
-                t = stack.pop()
-                if t.get_id() in seen:
-                    continue
-                seen.add(t.get_id())
-                if z3.is_quantifier(t):
-                    if t.is_forall() and t.num_vars() == 1:
-                        quants[t.get_id()] = t
-                    # ground subterms inside the body are also candidates
-                    stack.append(t.body())
-                    continue
-                if z3.is_app(t):
-                    if t.decl().kind() == z3.Z3_OP_SEQ_NTH and not _has_free_var(t):
-                        nths.setdefault(t.arg(0).get_id(), []).append(t.arg(1))
-                    stack.extend(t.children())
+            for f in cur:
+                q, n = _scan_quant_nth(f)
+                allq.update(q)
+                if srcids is not None and f.get_id() not in srcids:
+                    continue  # element terms are taken from the goal-relevant formulas only
+                for k, v in n.items():
+                    alln.setdefault(k, {}).update(v)
             new = []
-            for q in quants.values():
-                seqs = _nth_on_var(q.body())
-                for sq in seqs:
-                    if _has_free_var(sq):
-                        continue
-                    for idx in nths.get(sq.get_id(), []):
+            for q in allq.values():
+                for sq in _nth_on_var_cached(q):
+                    for idx in alln.get(sq.get_id(), {}).values():
                         key = (q.get_id(), idx.get_id())
                         if key in seen_inst:
                             continue
@@ -314,31 +366,55 @@ class Engine(StmtMixin):
                 break
             added.extend(new)
             cur = new
+            if srcids is not None:
+                srcids |= {f.get_id() for f in new}
         return added
 
     def _check(self, forms, timeout_ms, inert=True):
-        """First with z3's own quantifier instantiation switched off: the quantifiers that matter range
-        over sequence elements and are instantiated by `_instantiate` (z3 cannot match on seq.nth), and
-        left to itself z3 runs into matching loops on the nested well-formedness predicates (trivial
-        goals timed out). `unsat` is sound either way; anything else is retried with z3's E-matching."""
+        """z3 on one query. Observed: (i) with its own quantifier instantiation on, z3 runs into matching loops
+        on the nested well-formedness predicates, while the quantifiers that matter (over sequence positions)
+        are instantiated by `_instantiate` anyway; (ii) on seq + datatype queries z3 sometimes gives up at once
+        with `unknown (incomplete (theory seq))` and succeeds on the identical query with another random seed.
+        So: a short attempt with E-matching, an attempt with quantifiers inert, then the full budget; quick
+        give-ups are retried with other seeds. Only `unsat` is ever taken at face value."""
         from .core import _has_quant
 
         has_q = any(_has_quant(f) for f in forms)
-        if has_q and inert:
+        first_model = None
+
+        def attempt(budget, inert_q, seed):
             s = z3.Solver()
-            s.set("timeout", int(min(timeout_ms, 4000)))
-            s.set("smt.ematching", False)
-            s.set("smt.mbqi", False)
+            s.set("timeout", int(budget))
+            s.set("smt.random_seed", seed)
+            if inert_q:
+                s.set("smt.ematching", False)
+                s.set("smt.mbqi", False)
             for f in forms:
                 s.add(f)
-            if s.check() == z3.unsat:
-                return z3.unsat, None
-        s = z3.Solver()
-        s.set("timeout", int(timeout_ms))
-        for f in forms:
-            s.add(f)
-        r = s.check()
-        return r, (s.model() if r == z3.sat else None)
+            t0 = time.time()
+            r = s.check()
+            quick = (time.time() - t0) < 0.5 * budget / 1000.0
+            return r, (s.model() if r == z3.sat else None), quick
+
+        plan = []
+        if has_q and inert:
+            plan.append((min(timeout_ms, 1500), False))
+            plan.append((min(timeout_ms, 10000), True))
+        plan.append((timeout_ms, False))
+        last = z3.unknown
+        for budget, inert_q in plan:
+            for seed in (0, 7, 23):
+                r, m, quick = attempt(budget, inert_q, seed)
+                if r == z3.unsat:
+                    return z3.unsat, None
+                if r == z3.sat and first_model is None and not inert_q:
+                    first_model = m
+                last = r if not inert_q else last
+                if not (r == z3.unknown and quick):
+                    break  # a timeout or a model: another seed will not help cheaply
+        if first_model is not None:
+            return z3.sat, first_model
+        return z3.unknown, None
 
     def _uf_apps(self, forms):
         names = {f.name() for f in self._ufs.values()}
@@ -429,6 +505,70 @@ class Engine(StmtMixin):
         if cuts:
             return self._check(allf + cuts, timeout_ms)
         return z3.unknown, None
+
+
+def _appends_one(body):
+    """body == if c then [] else A ++ [x]  (the shape of a prefix recursion that appends one element)"""
+    if not (z3.is_app(body) and body.decl().kind() == z3.Z3_OP_ITE):
+        return False
+    for br in (body.arg(1), body.arg(2)):
+        if z3.is_app(br) and br.decl().kind() == z3.Z3_OP_SEQ_CONCAT and br.num_args() == 2:
+            last = br.arg(1)
+            if z3.is_app(last) and last.decl().kind() == z3.Z3_OP_SEQ_UNIT:
+                return True
+    return False
+
+
+def _nth_expand(seq, t):
+    """seq[t] pushed through ite / concat / unit (t assumed in range)"""
+    if z3.is_app(seq):
+        k = seq.decl().kind()
+        if k == z3.Z3_OP_ITE:
+            return z3.If(seq.arg(0), _nth_expand(seq.arg(1), t), _nth_expand(seq.arg(2), t))
+        if k == z3.Z3_OP_SEQ_UNIT:
+            return seq.arg(0)
+        if k == z3.Z3_OP_SEQ_CONCAT:
+            parts = seq.children()
+            first, rest = parts[0], (parts[1] if len(parts) == 2 else z3.Concat(*parts[1:]))
+            return z3.If(t < z3.Length(first), _nth_expand(first, t), _nth_expand(rest, t - z3.Length(first)))
+    return seq[t]
+
+
+_scan_cache = {}
+_nov_cache = {}
+
+
+def _scan_quant_nth(f):
+    """(universal one-variable quantifiers, ground s[t] terms grouped by id(s)) occurring in f -- cached per formula"""
+    k = f.get_id()
+    hit = _scan_cache.get(k)
+    if hit is not None:
+        return hit
+    quants, nths = {}, {}
+    stack, seen = [f], set()
+    while stack:
+        t = stack.pop()
+        if t.get_id() in seen:
+            continue
+        seen.add(t.get_id())
+        if z3.is_quantifier(t):
+            if t.is_forall() and t.num_vars() == 1:
+                quants[t.get_id()] = t
+            stack.append(t.body())
+            continue
+        if z3.is_app(t):
+            if t.decl().kind() == z3.Z3_OP_SEQ_NTH and not _has_free_var(t):
+                nths.setdefault(t.arg(0).get_id(), {})[t.arg(1).get_id()] = t.arg(1)
+            stack.extend(t.children())
+    _scan_cache[k] = (quants, nths)
+    return quants, nths
+
+
+def _nth_on_var_cached(q):
+    k = q.get_id()
+    if k not in _nov_cache:
+        _nov_cache[k] = [sq for sq in _nth_on_var(q.body()) if not _has_free_var(sq)]
+    return _nov_cache[k]
 
 
 def _has_free_var(t):
@@ -543,7 +683,12 @@ def verify_function(key, src=None, timeout_ms=8000, verbose=False, jobs=None, ha
     jobs = jobs or int(os.environ.get("PYVC_JOBS", "16"))
     try:
         eng = Engine(src)
-        obs, info = eng.gen_obligations(key)
+        if key.startswith("lemma:"):
+            from .lemmas import lemma_obligations
+
+            obs, info = lemma_obligations(eng, key[6:]), {"exits": {}, "paths": 0, "callees": []}
+        else:
+            obs, info = eng.gen_obligations(key)
     except Unsupported as e:
         return {"key": key, "status": "unattachable", "reason": str(e), "clauses": {}, "obligations": [], "wall": time.time() - t0}
     except Exception as e:  # engine fault, never a verdict
@@ -570,7 +715,7 @@ def verify_function(key, src=None, timeout_ms=8000, verbose=False, jobs=None, ha
     elif any(v in ("unknown", "vacuous") for k, v in clauses.items() if not (v == "unknown" and "/cover:" in k)):
         status = "undecided"
     return {"key": key, "status": status, "clauses": clauses, "obligations": results, "info": info,
-            "sha": eng.src.func_sha(key), "wall": round(time.time() - t0, 3), "gen_s": round(gen_s, 3),
+            "sha": (eng.src.func_sha(key) if not key.startswith("lemma:") else "lemma"), "wall": round(time.time() - t0, 3), "gen_s": round(gen_s, 3),
             "solver_s": round(sum(r["seconds"] for r in solved), 3)}
 
 
